@@ -10,7 +10,7 @@
    deliveries for branch k whose statements interleave according to sched.
    try_of / confirm_of / cancel_of count the COMMITTED business effects. *)
 From Coq Require Import List NArith Bool Arith.
-From SeataV Require Import Fence.FenceModel Fence.FenceRace Fence.FenceProofs.
+From SeataV Require Import Fence.FenceModel Fence.FenceRace Fence.FenceProofs Fence.FenceDriverProofs.
 Import ListNotations.
 Open Scope N_scope.
 
@@ -61,6 +61,34 @@ Theorem C06_race : forall row p1 p2 sched,
   cnt_of (s_row (r_sh r)) = add_effs (cnt_of row) (s_effs (r_sh r)) /\
   (t_err (r_t0 r) <> ENone -> t_err (r_t1 r) <> ENone -> s_row (r_sh r) = row /\ s_effs (r_sh r) = []).
 Proof. exact race_safe. Qed.
+
+(* ---- the seata-fence-mysql proxy-driver mode (FenceConn.BeginTx / FenceTx) -------------------
+   DDrv k phase fault = a delivery whose participant opens its transaction on a proxy connection: the
+   fence runs in a second transaction, the business cannot be skipped, the two transactions are
+   committed one after the other.  The full property FAILS there (known findings
+   fence.drivermode.decided-without-business and fence.drivermode.fault-at-commit); outside these
+   two input predicates (dhist_supported) idempotence and exclusivity hold for mixed histories. *)
+Theorem C06_drivermode_partial : forall h k,
+  dhist_supported [] h = true ->
+  let c := get (run_dhist [] h) k in
+  try_of c <= 1 /\ confirm_of c <= 1 /\ cancel_of c <= 1 /\ ~ (confirm_of c = 1 /\ cancel_of c = 1).
+Proof. exact drv_partial. Qed.
+
+Theorem C06_drivermode_refuted :
+  (let h := [DDrv 1 Prepare None; DDrv 1 Commit None; DDrv 1 Commit None] in
+   dhist_supported [] h = false /\ confirm_of (get (run_dhist [] h) 1) = 2) /\
+  (let h := [DDrv 1 Rollback None] in
+   dhist_supported [] h = false /\ get (run_dhist [] h) 1 = mkC (Some Suspended) (0, 0, 1)) /\
+  (let h := [DDrv 1 Prepare (Some 6%nat)] in
+   dhist_supported [] h = false /\ get (run_dhist [] h) 1 = mkC None (1, 0, 0)).
+Proof. exact drv_refuted. Qed.
+
+Example C06_drivermode_nonvacuous :
+  let h := [DDrv 1 Prepare (Some 3%nat); DDrv 1 Prepare None; DApi (HDeliver 1 Prepare None); DDrv 1 Commit (Some 6%nat);
+            DDrv 1 Commit None; DApi (HDeliver 1 Commit None); DDrv 1 Rollback None; DDrv 2 Commit None] in
+  dhist_supported [] h = true /\ get (run_dhist [] h) 1 = mkC (Some Committed) (1, 1, 0) /\
+  get (run_dhist [] h) 2 = mkC None (0, 0, 0).
+Proof. vm_compute. repeat split. Qed.
 
 (* ---- non-vacuity -------------------------------------------------------------- *)
 (* a history in which suspension actually occurs, followed by a late try, a duplicate rollback
